@@ -220,6 +220,12 @@ func hcDrawPlan(rt *rapid.T, focus string) *hcPlan {
 		case "settings":
 			if focus == "C17" || focus == "C18" {
 				op.mcs = vs.Pick(c, 0, 1, 2, 3, 5)
+				if focus == "C17" && vs.Pct(c, 35) {
+					// a later SETTINGS frame that does not repeat the limit (empty, or
+					// another parameter only): the limit in force must not change
+					op.mcs = -1
+					op.iw = vs.Pick(c, -1, 65535, 1<<20)
+				}
 			} else {
 				if vs.Bool(c) {
 					op.iw = vs.Pick(c, 0, 1, 100, 5000, 65535, 1<<20)
@@ -1535,6 +1541,9 @@ func (r *hcRun) doOp(op hcOp) {
 		}
 		if op.iw >= 0 && int64(op.iw) < old.iw {
 			vs.G.Inc("probe.initial_window_shrunk")
+		}
+		if op.mcs < 0 && old.mcs < 1000 && len(cn.sSettings) > 2 {
+			vs.G.Inc("probe.later_settings_without_limit_while_limited")
 		}
 		r.tr.Ev("  srv SETTINGS c%d iw=%d mf=%d mcs=%d", cn.idx, op.iw, op.mf, op.mcs)
 	case "goaway":
